@@ -348,6 +348,36 @@ def r_enc_loop(ctx, prog, codecs):
                     if inc and all(v[0] in ('load', 'load@') and v[1][0] == 'field' and v[1][2] == 'right' and v[1][1] == ('phi', ph.id) for v in inc):
                         okadv = True
         ctx.instance(R, okadv, adds[0], name + ':traversal', '%s must walk the whole row (e = e->right on every path)' % name)
+        # no entry other than the symbol being built is skipped: from the "not my own column" edge every path to the next
+        # iteration passes an accumulation
+        from .ir import out_edges as _oe, cond_atoms as _ca
+        addb = set(a.block.id for a in adds)
+        for lp in lps:
+            skipped = None
+            for b2 in f.blocks:
+                if b2.id not in lp.blocks:
+                    continue
+                for s3, lab3 in _oe(b2):
+                    if lab3 is None or lab3[0] != 'br' or s3.id not in lp.blocks:
+                        continue
+                    if any(a3[0] == 'cmp' and a3[1] == 'ne' and (_is_entry_col(a3[2]) or _is_entry_col(a3[3])) for a3 in _ca(tt, lab3[1], lab3[2])):
+                        rem3 = [(bid, x.id) for bid in addb for x in f.bmap[bid].succs]
+                        r3 = f.reachable(s3, removed=rem3, stop=[lp.header])
+                        if s3.id not in addb and any(l3.id in r3 for l3 in lp.latches):
+                            skipped = b2.term()
+            ctx.instance(R, skipped is None, skipped or lp.header.term(), name + ':no-other-skip',
+                         '%s can move on to the next entry of the equation without adding the current one (other than the symbol '
+                         'being built): the repair symbol no longer satisfies its parity equation' % name)
+        # the result is OK only after the whole equation was summed: no OK return before the accumulation loop
+        for lp in lps:
+            for v, chain, r in ret_sources(f):
+                if const_of(v) != 0:
+                    continue
+                src = f.bmap[chain[0][0]] if chain else r.block
+                early = not f.bdom(lp.header, src)
+                ctx.instance(R, not early, src.term(), name + ':ok-after-sum',
+                             '%s returns OF_STATUS_OK on a path that does not run the accumulation loop: the caller gets a symbol '
+                             'that was not computed from its equation' % name)
 
 
 def _is_entry_col(t):
@@ -480,6 +510,12 @@ def r_2d_radix(ctx, prog):
                      'entries are inserted at column base + %s*inner + %s*outer with inner range %s and outer range %s: the strides do not '
                      'form a mixed radix, so some source symbols fall in no check (or two) of this family' %
                      (show(a_in), show(a_out), show(rng_in), show(rng_out)))
+        # each family of checks covers the d x l grid of source symbols exactly: the two ranges are d and l (in some order)
+        want = sorted([repr(_lin(('param', 1))), repr(_lin(('param', 2)))])
+        got = sorted([repr(_lin(rng_in)), repr(_lin(rng_out))])
+        ctx.instance(R, got == want, lr_in.cmp, 'nest%d:grid' % n,
+                     'the nest runs over %s x %s entries; each family of checks must cover the d x l source symbols exactly once' %
+                     (show(rng_out)[:30], show(rng_in)[:30]))
     ctx.need(n >= 2, R, 'fewer than two insertion nests found')
 
 
